@@ -559,7 +559,12 @@ def _digest_arrays(d):
     import hashlib
 
     h = hashlib.sha256()
+    # rounded: the last bits of compiled helpers / numpy reductions may differ between processes (buffer
+    # alignment); the bitwise comparisons of the oracle are always made within one process
     for nm in sorted(d):
         h.update(nm.encode())
-        h.update(np.ascontiguousarray(d[nm]).tobytes())
+        a = np.ascontiguousarray(d[nm])
+        if a.dtype.kind in "fc":
+            a = np.round(a.astype(np.complex128 if a.dtype.kind == "c" else np.float64), 9) + 0.0
+        h.update(a.tobytes())
     return h.hexdigest()[:16]
